@@ -7,6 +7,7 @@
 EXTENDS GraphSLAM
 CONSTANTS Templates,      \* set of [name, nv, ne]
           MaxIterSet, TolSet,
+          Faults,         \* whether the behaviours contain optimizer calls cut short by a failing user-defined edge (OptAbort)
           Edits           \* whether the behaviours contain the user's SetPose / SetMeas edits
 VARIABLES tmpl, arg, nopt
 svars == <<vars, tmpl, arg, nopt>>
@@ -38,7 +39,13 @@ SSetPose == \E i \in 1..tmpl.nv :
 SSetMeas == \E n \in 1..tmpl.ne :
             /\ status = "ready" /\ UNCHANGED <<verts, edges, status>> /\ obs' = [op |-> "SetMeas"]
             /\ arg' = [NoArg EXCEPT !.op = "SetMeas", !.idx = n] /\ UNCHANGED <<tmpl, nopt>>
-SNext == SQuery \/ SSetFixed \/ SOpt \/ SReload \/ (Edits /\ (SSetPose \/ SSetMeas))
+\* (idx: the assembly - 1-based, at most maxIter - during which the armed edge fails)
+SOptAbort == \E m \in MaxIterSet : \E ff \in BOOLEAN : \E k \in 1..3 :
+            /\ k <= m /\ nopt < 6
+            /\ OptAbortEffect(ff, [i \in 1..tmpl.nv |-> verts[i].pose + 1]) /\ obs' = [op |-> "OptAbort"]
+            /\ arg' = [NoArg EXCEPT !.op = "OptAbort", !.maxIter = m, !.fixFirst = ff, !.idx = k]
+            /\ nopt' = nopt + 1 /\ UNCHANGED tmpl
+SNext == (Faults /\ SOptAbort) \/ SQuery \/ SSetFixed \/ SOpt \/ SReload \/ (Edits /\ (SSetPose \/ SSetMeas))
 SSpec == SInit /\ [][SNext]_svars
 FixedFrozenS == [][obs'.op # "SetPose" => \A i \in DOMAIN verts : verts'[i].fixed => verts'[i].pose = verts[i].pose]_svars
 =============================================================================
